@@ -14,7 +14,7 @@
      limited        (x widen y) meet { c in cs | x entails c }
      bounded        limited meet (constraints of the CC76-widened bounding box)
      it             x_0 = y_0,  x_{k+1} = (x_k join y_{k+1}).widening_assign(x_k)             *)
-From Coq Require Import List Arith Lia Bool Wellfounded.
+From Coq Require Import List Arith Lia Bool Wellfounded Relations.
 Import ListNotations.
 
 Section Generic.
@@ -219,6 +219,38 @@ Section Generic.
         intros m Hm. now apply A. }
       exact (G _ (clt_wf _) 0 eq_refl).
     Qed.
+
+    (* certificates only go down along the iteration *)
+    Lemma cert_descends : (forall a b, deq a b \/ ~ deq a b) -> forall k j, k <= j ->
+      cert (it j) = cert (it k) \/ clos_trans C clt (cert (it j)) (cert (it k)).
+    Proof.
+      intros dec k. induction 1 as [|j Hj IH]; [now left|].
+      assert (S1 : cert (it (S j)) = cert (it j) \/ clt (cert (it (S j))) (cert (it j))).
+      { destruct (dec (it (S j)) (it j)) as [E|N]; [left; now apply cert_value|right].
+        exact (step_decreases _ _ (it_step_le j) N). }
+      destruct S1 as [E|L]; [rewrite E; exact IH|].
+      right. destruct IH as [E|T]; [rewrite <- E; now apply t_step|].
+      eapply t_trans; [apply t_step; exact L|exact T].
+    Qed.
+
+    (* the positive statement, from the one instance of the limited principle of omniscience it needs:
+       from any index on, either every later step is stationary or some later step is not *)
+    Theorem certified_widening_terminates_lpo :
+      (forall a b, deq a b \/ ~ deq a b) ->
+      (forall k, (forall m, k <= m -> deq (it (S m)) (it m)) \/ (exists m, k <= m /\ ~ deq (it (S m)) (it m))) ->
+      exists n, stationary_from n.
+    Proof.
+      intros dec lpo.
+      assert (G : forall c, Acc (clos_trans C clt) c -> forall k, cert (it k) = c -> exists n, stationary_from n).
+      { induction 1 as [c _ IH]. intros k Hc. destruct (lpo k) as [St|[m [Hm N]]].
+        - exists k. intros m Hm. induction Hm as [|m Hm IHm]; [apply deq_refl|].
+          eapply deq_trans; [apply St; exact Hm|exact IHm].
+        - apply (IH (cert (it (S m)))) with (k := S m); [|reflexivity].
+          rewrite <- Hc. pose proof (step_decreases _ _ (it_step_le m) N) as L.
+          destruct (cert_descends dec k m Hm) as [E|T]; [rewrite <- E; now apply t_step|].
+          eapply t_trans; [apply t_step; exact L|exact T]. }
+      exact (G _ (wf_clos_trans _ _ clt_wf _) 0 eq_refl).
+    Qed.
   End Iteration.
 End Generic.
 
@@ -314,3 +346,16 @@ Proof.
   apply (certified_widening_terminates_classic Toy.D nat Toy.den Toy.widen Toy.join Toy.join_ub_l
            (fun k => Some k) nat Toy.cert lt lt_wf Toy.cert_value Toy.step_decreases).
 Qed.
+
+(* the omniscience hypothesis of certified_widening_terminates_lpo is an instance of excluded middle *)
+Lemma lpo_from_classic (P : nat -> Prop) k : (forall m, k <= m -> P m) \/ (exists m, k <= m /\ ~ P m).
+Proof.
+  destruct (classic (exists m, k <= m /\ ~ P m)) as [H|H]; [now right|left].
+  intros m Hm. apply NNPP. intros N. apply H. now exists m.
+Qed.
+Example lpo_hypothesis_ok : forall k,
+  (forall m, k <= m -> deq Toy.D nat Toy.den (it Toy.D Toy.widen Toy.join (fun k => Some k) (S m))
+                                             (it Toy.D Toy.widen Toy.join (fun k => Some k) m)) \/
+  (exists m, k <= m /\ ~ deq Toy.D nat Toy.den (it Toy.D Toy.widen Toy.join (fun k => Some k) (S m))
+                                               (it Toy.D Toy.widen Toy.join (fun k => Some k) m)).
+Proof. intros k. apply (lpo_from_classic (fun m => deq Toy.D nat Toy.den _ _)). Qed.
